@@ -436,11 +436,19 @@ func (e *sortableEndpoints) Swap(i, j int) {
 // addToMultiPolygon does a lookup to see which polygon the ring intersects.
 // This should work fine if the input is well formed.
 func addToMultiPolygon(mp orb.MultiPolygon, ring orb.Ring) orb.MultiPolygon {
+	// the innermost polygon that contains the ring: with nested members (an island
+	// in a lake) the first match may be the polygon around the lake.
+	best := -1
 	for i := range mp {
-		if polygonContains(mp[i][0], ring) {
-			mp[i] = append(mp[i], ring)
-			return mp
+		if polygonContains(mp[i][0], ring) &&
+			(best == -1 || polygonContains(mp[best][0], mp[i][0])) {
+			best = i
 		}
+	}
+
+	if best != -1 {
+		mp[best] = append(mp[best], ring)
+		return mp
 	}
 
 	// ring is not in any polygons?
